@@ -199,8 +199,10 @@ impl Clone for TK {
 }
 impl Drop for TK {
     fn drop(&mut self) {
-        tick(K_DROP);
+        // the object is dead as soon as its destructor has been entered: a destructor that panics must not be run a
+        // second time, so the drop is recorded BEFORE the injected panic
         on_drop("key", self.tok, &mut self.magic);
+        tick(K_DROP);
     }
 }
 
@@ -239,8 +241,8 @@ impl PartialEq for TV {
 }
 impl Drop for TV {
     fn drop(&mut self) {
-        tick(K_DROP);
         on_drop("value", self.tok, &mut self.magic);
+        tick(K_DROP);
     }
 }
 
